@@ -176,6 +176,13 @@ class _HppTranslator(TranslatorBase):
         _HppDefinitionsTranslator
     ]
 
+    def __call__(self, nodes, base_name):
+        if not nodes:
+            # the source file says `using namespace prophy::generated;`: the namespace has to exist
+            content = _HppDefinitionsTranslator()(nodes, base_name)
+            return self._block_post_process(content, base_name, nodes)
+        return super(_HppTranslator, self).__call__(nodes, base_name)
+
     @classmethod
     def _make_lines_splitter(cls, previous_node_type, current_node_type):
         if not previous_node_type:
